@@ -222,6 +222,7 @@ def prior_specs(npar):
     else:
         specs.append(('dict-str(1, 3)', [(i, 'str') + vals[i] for i in (1, 3)]))
         specs.append(('dict-mixed(0, 2, 3)', [(i, 'obs' if j % 2 else 'str') + vals[i] for j, i in enumerate((0, 2, 3))]))
+    specs.append(('dict-empty', []))      # the empty subset of parameters, given as an empty dictionary
     return specs
 
 
@@ -289,6 +290,8 @@ def one_fit(pe, acc, sub, sig, basis, x, ys, pspec, mode, extra_kwargs=None, met
         priors = [objs[i] for i in range(npar)]
     elif pspec[0] == 'none':
         priors = None
+    elif pspec[0] == 'dict-empty':
+        priors = {}
     else:
         # dictionary priors: insertion order is not the index order (reversed for even-sized subsets, rotated otherwise)
         order = sorted(objs)
